@@ -645,6 +645,11 @@ func stackRun(w *World, raceOnly bool) {
 					bad("pull-failed", fmt.Sprintf("Pull ended at once: %v", serr))
 					return
 				}
+				// (opening a stream is a read, whatever options it carries)
+				if after, gerr := doGet(nil, false); gerr == nil && !proto.Equal(after, cur) {
+					bad("read-changed-state", fmt.Sprintf("nothing was written, but after a new Pull was opened (extra options: %v) Get changed from %v to %v", st.filtered, cur, after))
+					return
+				}
 				if st.filtered {
 					task.Note("pull opened with extra options")
 					continue
